@@ -874,8 +874,14 @@ impl Parser {
                             order_by_directions.push(true);
                         }
                         Some(Lexem::DescendingOrder) => {
-                            let cnt = order_by_directions.len();
-                            order_by_directions[cnt - 1] = false;
+                            match order_by_directions.last_mut() {
+                                Some(direction) => *direction = false,
+                                None => {
+                                    return Err(String::from(
+                                        "Error parsing ORDER BY, DESC without a field",
+                                    ));
+                                }
+                            }
                         }
                         _ => {
                             self.drop_lexem();
